@@ -6,7 +6,7 @@
    Kept findings mirrored by the models: #15 (every bracket is rewritten once a backtick occurs), #26 (diff(x,0) = x). *)
 From Coq Require Import ZArith List Bool String Ascii.
 Import ListNotations.
-Require Import PyBase Funcs FuncsFacts FuncsExamples FuncsFacts2 FuncsExamples2 EvalIdx EvalIdxFacts EvalIdxExamples EvalIdxWhole EvalIdxWholeExamples EvalIdxLocate EvalIdxLocateExamples.
+Require Import PyBase Funcs FuncsFacts FuncsExamples FuncsFacts2 FuncsExamples2 FuncsConv FuncsConvFacts EvalIdx EvalIdxFacts EvalIdxExamples EvalIdxWhole EvalIdxWholeExamples EvalIdxLocate EvalIdxLocateExamples EvalIdxProgram EvalIdxProgramExamples.
 Require Fsic.Locate.Locate Fsic.Locate.LocateFacts.
 Open Scope string_scope.
 Open Scope Z_scope.
@@ -149,6 +149,54 @@ Section C16_helpers.
     = Ret (repeat fill d0 ++ zip_with A sub (skipn d0 (map logf x)) (firstn (List.length x - d0) (map logf x)))%list.
   Proof. exact (dlog_closed_form A sub logf x d0 fill). Qed.
 End C16_helpers.
+
+(* ---- the cast of fill_value to the array's dtype (`shifted[:p] = fill_value`): conv = NumPy's cast, F = Python fill values ---- *)
+Section C16_fill_cast.
+  Variable A F : Type.
+  Variable sub : A -> A -> A.
+  Variable logf : A -> A.
+  Variable conv : F -> outcome A.
+
+  (* the cast succeeds: the call behaves as the helper of the theorems above with the CAST value as fill *)
+  Theorem C16_fill_cast_ok (fn : fname) (h : heap A) (lx : nat) (p : Z) (f : F) (v : A) :
+    conv f = Ret v -> call_Hc A F sub logf conv fn h lx p f = call_H A sub logf fn h lx p v.
+  Proof. exact (call_Hc_ok A F sub logf conv fn h lx p f v). Qed.
+
+  (* the cast fails: lag/lead with p <> 0 and diff with d > 0 raise the cast's exception, whatever the array's length *)
+  Theorem C16_shift_fill_cast_error (h : heap A) (lx : nat) (x : list A) (p : Z) (f : F) (e : exn) :
+    nth_error h lx = Some (mkArr 1 x) -> p <> 0 -> conv f = Raise e -> snd (shift_Hc A F conv h lx p f) = Raise e.
+  Proof. exact (shift_Hc_cast_error A F conv h lx x p f e). Qed.
+
+  Theorem C16_diff_fill_cast_error (h : heap A) (lx : nat) (x : list A) (d0 : Z) (f : F) (e : exn) :
+    nth_error h lx = Some (mkArr 1 x) -> 0 < d0 -> conv f = Raise e -> snd (diff_Hc A F sub conv h lx d0 f) = Raise e.
+  Proof. exact (diff_Hc_cast_error A F sub conv h lx x d0 f e). Qed.
+
+  (* p = 0 / d = 0: no assignment is reached, the fill value is never looked at *)
+  Theorem C16_shift_zero_ignores_fill (h : heap A) (lx : nat) (x : list A) (f : F) :
+    nth_error h lx = Some (mkArr 1 x) -> shift_Hc A F conv h lx 0 f = (h, Ret lx).
+  Proof. exact (shift_Hc_zero A F conv h lx x f). Qed.
+
+  Theorem C16_diff_zero_ignores_fill (h : heap A) (lx : nat) (x : list A) (f : F) :
+    nth_error h lx = Some (mkArr 1 x) -> diff_Hc A F sub conv h lx 0 f = (h, Ret lx).
+  Proof. exact (diff_Hc_zero A F sub conv h lx x f). Qed.
+
+  (* whatever the cast does, no existing array is modified *)
+  Theorem C16_helpers_with_cast_never_modify_existing_arrays (fn : fname) (h : heap A) (lx : nat) (p : Z) (f : F) :
+    let h' := fst (call_Hc A F sub logf conv fn h lx p f) in
+    (List.length h <= List.length h')%nat /\ forall l, (l < List.length h)%nat -> nth_error h' l = nth_error h l.
+  Proof. exact (helpers_c_never_modify_existing_arrays A F sub logf conv fn h lx p f). Qed.
+End C16_fill_cast.
+
+(* NEW finding: on an int64 array the default fill NaN makes lag / diff raise ValueError (inf: OverflowError; 1.5 is stored
+   as 1): the result does not hold fill_value where i-p falls outside the array.  The argument is untouched all the same. *)
+Theorem C16_int_array_nan_fill_refuted :
+  exists (x : list Z) (p : Z),
+    o_res Z (observe_c Z pyfill Z.sub (fun z => z) conv_int64 FLag 1 x p PFNan) = Raise ValueError /\
+    o_res Z (observe_c Z pyfill Z.sub (fun z => z) conv_int64 FDiff 1 x p PFNan) = Raise ValueError /\
+    o_res Z (observe_c Z pyfill Z.sub (fun z => z) conv_int64 FLag 1 x p PFInf) = Raise OverflowError /\
+    o_res Z (observe_c Z pyfill Z.sub (fun z => z) conv_int64 FLag 1 x p (PFFrac 1)) = Ret [1; 10; 20] /\
+    o_input_after Z (observe_c Z pyfill Z.sub (fun z => z) conv_int64 FLag 1 x p PFNan) = x.
+Proof. exact int_array_nan_fill_refuted. Qed.
 
 (* finding #26: the statement's formula taken literally at d = 0 (x[i] - x[i-0] = 0) is false of the code *)
 Theorem C16_diff_zero_formula_refuted :
@@ -482,6 +530,44 @@ Section C16_label_indexing.
       resolve_group (c10_has ct sp) (c10_locate gl sp) (otext oa ++ ":" ++ otext ob ++ ":" ++ Z_to_string s) = Ret ("[" ++ inner ++ "]") /\
       index_sem n inner = Some (py_slice_positions n a' b' s).
   Proof. exact (label_slice_positions_are_C10_positions gl ct sp oa ob s n a' b'). Qed.
+
+  (* ---- expressions as programs over typed brackets (any number of brackets, any bracket-free text between them):
+          [`a`] | [`a`:`b`(:s)] with either end possibly open | [z] | [a:(:s)]  — the shapes outside the kept finding classes.
+          b_ok: labels without backtick / colon / closing bracket / newline, steps > 0.
+          b_dst: the text each bracket becomes — for labels the position / bounds computed by the C10 model. ---- *)
+  Theorem C16_bracket_resolves (b : bracket) :
+    b_ok b -> resolve_group (c10_has ct sp) (c10_locate gl sp) (b_src b) = b_dst gl ct sp b.
+  Proof. exact (bracket_resolves gl ct sp b). Qed.
+
+  Theorem C16_bracket_source_is_well_formed (b : bracket) : b_ok b -> wf_group (b_src b) = true.
+  Proof. exact (b_src_wf b). Qed.
+
+  (* the whole expression: every bracket replaced by its C10 text, everything else verbatim *)
+  Theorem C16_program_rewrite (prog : list pseg) (ts : list string) (tail : string) :
+    Forall pseg_ok prog -> has_char ch_open tail = false ->
+    Forall2 (fun p t => b_dst gl ct sp (ps_b p) = Ret t) prog ts ->
+    rewrite (c10_has ct sp) (c10_locate gl sp) (program_text prog tail) = Ret (program_subst prog ts tail).
+  Proof. exact (program_rewrite gl ct sp prog ts tail). Qed.
+
+  (* the leftmost bracket whose label lookup fails decides the exception *)
+  Theorem C16_program_first_error (prog1 : list pseg) (ts : list string) (p : pseg) (prog2 : list pseg) (tail : string) (e : exn) :
+    Forall pseg_ok (prog1 ++ p :: prog2)%list -> has_char ch_open tail = false ->
+    Forall2 (fun p t => b_dst gl ct sp (ps_b p) = Ret t) prog1 ts ->
+    b_dst gl ct sp (ps_b p) = Raise e ->
+    rewrite (c10_has ct sp) (c10_locate gl sp) (program_text (prog1 ++ p :: prog2)%list tail) = Raise e.
+  Proof. exact (program_first_error gl ct sp prog1 ts p prog2 tail e). Qed.
+
+  (* what the written subscript selects: for a label bracket the position / the slice bounds the C10 model computes
+     (b_positions), for a positional bracket py_pos / py_slice_positions of ITS OWN numbers ... *)
+  Theorem C16_bracket_meaning (n : nat) (b : bracket) (inner : string) :
+    b_ok b -> b_plain gl ct sp b -> b_inner gl ct sp b = Ret inner -> index_sem n inner = b_positions gl ct sp n b.
+  Proof. exact (bracket_meaning gl ct sp n b inner). Qed.
+
+  (* ... which is what it selected as written: positional indexes and open-stop slices keep their Python meaning *)
+  Theorem C16_positional_bracket_meaning_kept (n : nat) (b : bracket) :
+    b_ok b -> (match b with BPosIndex _ | BPosOpenStop _ _ => True | _ => False end) ->
+    index_sem n (b_src b) = b_positions gl ct sp n b.
+  Proof. exact (positional_bracket_meaning_kept gl ct sp n b). Qed.
 End C16_label_indexing.
 
 (* eval('X[`a`:`b`:s]') selects exactly the elements obj['X', a:b:s] returns (inclusive label slice).  Hypotheses: those of
@@ -696,3 +782,16 @@ Print Assumptions C16_diff_out_of_range_is_all_fill.
 Print Assumptions C16_diff_closed_form.
 Print Assumptions C16_dlog_closed_form.
 Print Assumptions C16_undefined_name_leak_refuted.
+Print Assumptions C16_bracket_resolves.
+Print Assumptions C16_bracket_source_is_well_formed.
+Print Assumptions C16_program_rewrite.
+Print Assumptions C16_program_first_error.
+Print Assumptions C16_bracket_meaning.
+Print Assumptions C16_positional_bracket_meaning_kept.
+Print Assumptions C16_fill_cast_ok.
+Print Assumptions C16_shift_fill_cast_error.
+Print Assumptions C16_diff_fill_cast_error.
+Print Assumptions C16_shift_zero_ignores_fill.
+Print Assumptions C16_diff_zero_ignores_fill.
+Print Assumptions C16_helpers_with_cast_never_modify_existing_arrays.
+Print Assumptions C16_int_array_nan_fill_refuted.
